@@ -839,6 +839,19 @@ func (ex *Exec) pureCall(fn *ssa.Function, recv Val, argEs []*Expr, env *Env) Va
 	k := "pure|" + strings.Join(key, ",")
 	if !ex.axiomSeenKey(k) && env.depth < 3 {
 		cenv.vars["result"] = app
+		if tv, isT := app.(TupleV); isT {
+			for i, e := range tv.E {
+				cenv.vars[fmt.Sprintf("result%d", i)] = e
+				if n := sig.Results().At(i).Name(); n != "" && n != "_" {
+					cenv.vars[n] = e
+				}
+			}
+		} else if sig.Results().Len() == 1 {
+			if n := sig.Results().At(0).Name(); n != "" && n != "_" {
+				cenv.vars[n] = app
+			}
+		}
+		cenv.lenient = true
 		cenv.depth = env.depth + 1
 		cenv.old = nil
 		saved := ex.st.pc
